@@ -68,6 +68,7 @@ fn parse_free_modules() -> Vec<(String, ModuleSrc)> {
 pub fn history(bytes: &[u8]) -> (Vec<Snippet>, Vec<&'static str>) {
     let mut prof = profiles::mixed();
     prof.w_fiber = 0;
+    prof.tracer = false;
     prof.size = 400;
     prof.guard = 8;
     let mut g = Gen::new(bytes, prof);
@@ -274,7 +275,7 @@ impl Property for C15 {
     fn families(&self, tier: Tier) -> Vec<Family> {
         vec![Family {
             name: "histories",
-            kind: FamilyKind::Random { cases: if tier == Tier::Quick { 30_000 } else { 400_000 }, max_len: 900 },
+            kind: FamilyKind::Random { cases: if tier == Tier::Quick { 80_000 } else { 800_000 }, max_len: 900 },
         }]
     }
 
